@@ -86,10 +86,11 @@ Theorem C10_raw_and_isort_sinks_are_order_sensitive : forall k, order_sensitive 
 Proof. exact observe_refuted. Qed.
 Print Assumptions C10_raw_and_isort_sinks_are_order_sensitive.
 
-(* the graphqlschema strategy: its generator package has one set, a membership constant *)
+(* the graphqlschema strategy: its generator package has one set (a membership constant) and one constant dict *)
 Example C10_schema_strategy_sites :
   map (fun s => (s_ctx s, sink_name (s_sink s)))
-      (filter (fun s => String.prefix "graphql_schema_generators/" (s_file s)) site_table) = [("construct", "none")].
+      (filter (fun s => String.prefix "graphql_schema_generators/" (s_file s)) site_table)
+    = [("construct", "none"); ("state:module", "constant")].
 Proof. vm_compute. reflexivity. Qed.
 
 (* ---- isort's section placement: the ENVIRONMENT oracle (what exists below cwd) ---- *)
@@ -165,6 +166,24 @@ Theorem C10_history_independent : forall hist plugin wanted st,
   fst (gen_client_imports plugin wanted (run_history hist st)) = fst (gen_client_imports plugin wanted st).
 Proof. exact gen_history_independent. Qed.
 Print Assumptions C10_history_independent.
+
+(* ... and over the site table: every interpreter-lifetime container / shared AST node / cache the scan finds
+   (contexts state:module, state:class, state:cache, state:mutate, state:global) is a row; EVERY row is
+   history-free (the module-level containers are constants: the tie fingerprints the module state before and
+   after every generation of the cross-project sequences), and carried state is proved history-sensitive *)
+Theorem C10_emission_history_independent : forall s, In s site_table ->
+  forall (St : Type) (initial : St) (step : St -> St) n1 n2,
+  observe_history (s_sink s) initial step n1 = observe_history (s_sink s) initial step n2.
+Proof. exact emission_history_independent. Qed.
+Print Assumptions C10_emission_history_independent.
+
+Example C10_history_sensitive_sites : history_sensitive_sites = [].
+Proof. vm_compute. reflexivity. Qed.
+
+Theorem C10_carried_state_is_history_sensitive : forall k, history_sensitive k = true ->
+  exists (initial : nat) (step : nat -> nat) n1 n2,
+  observe_history k initial step n1 <> observe_history k initial step n2.
+Proof. exact carried_state_is_history_sensitive. Qed.
 
 (* ---- regression Examples: the witnesses of the repaired findings ---- *)
 (* F12 (fixed by 93e79d6): the two oracles that split the pre-fix DFS now agree; before, they differed — but
